@@ -6,6 +6,9 @@ PY = "PYTHONHASHSEED=0 PYTHONDONTWRITEBYTECODE=1 HGX_VERIF=1 /venv/bin/python -m
 
 CHECKS = {
  # id: (technique, level text, design_ref, note)
+ "C02": ("model-based history testing (generated operation sequences vs. a dict reference model keyed by (source set, target set))",
+         "Same machine as C01 for DirectedHypergraph: role-specific incidence (source/target), direction (the reversed pair is generated on purpose), in/out degrees, neighbours, filters on total size, metadata survival; every public query compared after every step.",
+         "2/C02", "trusted: RefDirected model, Hypothesis; remove_node only with keep_edges=False (quantifier)"),
  "C01": ("model-based history testing (Hypothesis-generated operation sequences vs. a dict/set reference model, full public observation after every step)",
          "Every generated history (<=50 public mutator calls incl. rejected ones, copies, batches) is replayed on a 150-line reference model; all public queries incl. every order/size/up_to filter are compared as multisets after every step. Finds history-dependent faults (stale/duplicated incidence entries, wrong-key tables); establishes nothing beyond the explored histories.",
          "2/C01", "trusted: RefHypergraph model, Hypothesis; unspecified corners are value sets or excluded (listed in evidence.assumptions)"),
